@@ -1148,6 +1148,15 @@ func TestVerifC05mem(t *testing.T) {
 	s := vfutil.NewSession("C05mem")
 	defer s.Close()
 	d := &c05mem{s: s, r: vfutil.NewRand(vfutil.Seed() + 77)}
+	// thorough tier: the binary is built with -race; reports of the race runtime become results
+	rl := vfutil.StartRaceLog("C05mem")
+	defer rl.Finish(s, func() map[string]interface{} {
+		tr := d.trace
+		if len(tr) > 40 {
+			tr = tr[len(tr)-40:]
+		}
+		return map[string]interface{}{"backend": "mem", "steps": strings.Join(tr, " ; ")}
+	})
 	// whole-test watchdog: write the summary (with the last ops) and stop
 	limit := time.Duration(vfutil.Scale(150, 1500)) * time.Second
 	wd := time.AfterFunc(limit, func() {
@@ -1167,7 +1176,7 @@ func TestVerifC05mem(t *testing.T) {
 			s.Count("corpus_cases")
 		}
 	}
-	cases := vfutil.Scale(250, 3000)
+	cases := vfutil.Scale(250, 1500)
 	if v, err := strconv.Atoi(os.Getenv("VERIF_CASES")); err == nil {
 		cases = v
 	}
@@ -1175,5 +1184,5 @@ func TestVerifC05mem(t *testing.T) {
 		synctest.Test(t, func(t *testing.T) { d.runCase(vfutil.Scale(150, 250)) })
 		s.Count("cases")
 	}
-	c05mStress(s, d.r, vfutil.Scale(1500, 40000))
+	c05mStress(s, d.r, vfutil.Scale(1500, 20000))
 }
